@@ -275,8 +275,9 @@ theorem pcycleRun_inv {L L' : Nat → Prop} {ps q : PSt} {n c : Nat} (r : PCycle
     are made while the collector is not idle (one marking increment per white object that was reachable at the
     start and that the program moves onto the stack behind the collector's back, plus the increment that ends
     marking, plus one sweep increment): the collector is idle again by step `t + reachCount p0 + 3` at the
-    latest, and by step `t + 3` when no unmarked root appears.  Moreover what is then allocated was reachable at
-    the start or allocated since. -/
+    latest.  Moreover what is then allocated was reachable at the start or allocated since.  (The three-call
+    case is the separate theorem `C07_quiet_cycle_three_steps`, proved for collector calls with no program
+    step in between.) -/
 theorem C07_cycle_spans_k_steps {p0 q : PSt} {L' : Nat → Prop} {n leak0 : Nat} (h0 : PInv p0)
     (hp : p0.g.phase = .idle) (hgt : p0.heapBytes > p0.lastGc * pauseFactor)
     (r : PCycleRun (Reach p0.g) (maybeGc p0 leak0) L' q n) :
@@ -291,8 +292,10 @@ theorem C07_cycle_spans_k_steps {p0 q : PSt} {L' : Nat → Prop} {n leak0 : Nat}
   omega
 
 /-- **C07, the common case: three calls.** When the threshold is exceeded in an idle state and the program does
-    not run in between (or, more generally, no unmarked root appears), the cycle is: start, one marking
-    increment, one sweeping increment — the collector is idle again after three calls of `maybe_gc`. -/
+    not run in between, the cycle is: start, one marking increment, one sweeping increment — the collector is
+    idle again after three calls of `maybe_gc`.  (With program steps in between the same holds as long as no
+    unmarked root appears; that generalisation is NOT proved here, it is what the harness observes: 1261 of
+    1290 real cycles.) -/
 theorem C07_quiet_cycle_three_steps {p : PSt} (h : PInv p) (hp : p.g.phase = .idle)
     (hgt : p.heapBytes > p.lastGc * pauseFactor) :
     (maybeGc (maybeGc (maybeGc p 0) 0) 0).g.phase = .idle ∧
@@ -372,8 +375,10 @@ theorem brunH_rinv {R A M : Nat} {p : PSt} {s hc : Nat} (r : BRunH R A M p s hc)
 /-- **C07, bounded heap, sharp form.** If the reachable objects have at most `R` bytes whenever a cycle starts,
     at most `A` bytes are allocated between two calls of `maybe_gc`, and in every cycle at most `M` marking
     increments end with an unmarked root on the stack (`M = 0` for a program that never pops nested containers in
-    consecutive instructions), then every cycle takes at most `M + 3` calls and at every point of every run
-    `heap_size ≤ 2·R + (3·M + 9)·A`. -/
+    consecutive instructions), then at every point of every run `heap_size ≤ 2·R + (3·M + 9)·A`.  (That a cycle
+    then takes at most `M + 3` calls is the internal invariant `brunH_rinv` of the proof, not part of this
+    statement; the bound on `M` is a hypothesis carried by `BRunH`, measured on real runs, not proved for any
+    program.) -/
 theorem C07_bounded_heap_hits {R A M : Nat} {p : PSt} {s hc : Nat} (r : BRunH R A M p s hc) :
     p.heapBytes ≤ boundB R A M ∧ p.heapBytes ≤ p.debt ∧ p.lastGc ≤ R + (M + 3) * A := by
   refine ⟨?_, (brunH_rinv r).pinv.debt, (brunH_rinv r).last⟩
